@@ -317,6 +317,7 @@ PROPS = {
                    {**gen_q("big", "E0", maxlen=("6", "7"), alphabet="GenAlphabetB", pset="GenPSetMore"), "skip": (True, False)},
                    {**gen_q("big", "E0", maxlen=("6", "7"), alphabet="GenAlphabetC"), "skip": (True, False)}],
         "trace": [TR_Q],
+        "direct": [{"cmd": "direct", "family": "qlong", "args": {"max_n": ("5000", "100000")}}],
         "rule": "every stream over {0,1,2,3} (ties everywhere) of length 5..L for p in {0,1/4,1/2,3/4,1}: positions and desired "
                 "positions exactly, heights and quantile() within 64*n*2^-53*max|x| of the exact-rational P-square run, tie rule of "
                 "DESIGN.md 4.2; plus long sorted/reverse/zig-zag/trending/duplicate/random streams whose recorded marker positions "
